@@ -3,6 +3,8 @@ package main
 // Rules added after the third round of independently seeded changes.
 
 import (
+	"go/token"
+	"go/types"
 	"fmt"
 	"os"
 	"path/filepath"
@@ -24,60 +26,167 @@ func checkFreshOperation(c *Ctx, r *Report, rule string, pkgs []string) {
 			r.Anchor(rule, pk+".NewOperation")
 			continue
 		}
-		construct := pk + ".NewOperation returns a fresh object"
-		bad := ""
-		pos := c.Pos(fn.Pos())
-		allInstrs(fn, func(in ssa.Instruction) {
-			ret, ok := in.(*ssa.Return)
-			if !ok || len(ret.Results) == 0 {
-				return
-			}
-			v := ret.Results[0]
-			if isNilConst(v) {
-				return
-			}
-			var check func(v ssa.Value, d int) bool
-			check = func(v ssa.Value, d int) bool {
-				if d > 4 {
+		checkFreshConstructor(c, r, rule, fn, "callers write the failure strings in force into the object they get, so a shared one carries the first driver's strings into every later operation of every driver")
+	}
+}
+
+// checkFreshConstructor: every non-nil first result of fn is an object allocated by this very call (directly, or by a
+// helper of the same package that does so on each of its returns).
+func checkFreshConstructor(c *Ctx, r *Report, rule string, fn *ssa.Function, consequence string) {
+	pk := ""
+	if fn.Pkg != nil {
+		pk = strings.TrimPrefix(fn.Pkg.Pkg.Path(), modPath+"/")
+	}
+	construct := pk + "." + fn.Name() + " returns a fresh object"
+	bad := ""
+	pos := c.Pos(fn.Pos())
+	var check func(v ssa.Value, d int) bool
+	check = func(v ssa.Value, d int) bool {
+		if d > 4 {
+			return false
+		}
+		switch x := v.(type) {
+		case *ssa.Alloc:
+			return x.Heap
+		case *ssa.Phi:
+			for _, e := range x.Edges {
+				if !isNilConst(e) && !check(e, d+1) {
 					return false
 				}
-				switch x := v.(type) {
-				case *ssa.Alloc:
-					return x.Heap
-				case *ssa.Phi:
-					for _, e := range x.Edges {
-						if !isNilConst(e) && !check(e, d+1) {
-							return false
-						}
-					}
-					return true
-				case *ssa.Call:
-					// a helper of the same package that itself hands out a fresh object on every return
-					h := x.Call.StaticCallee()
-					if h == nil || h.Pkg != fn.Pkg || len(h.Blocks) == 0 || h == fn {
-						return false
-					}
-					fresh := true
-					allInstrs(h, func(in ssa.Instruction) {
-						if hr, ok := in.(*ssa.Return); ok {
-							if len(hr.Results) != 1 || !check(hr.Results[0], d+1) {
-								fresh = false
-							}
-						}
-					})
-					return fresh
+			}
+			return true
+		case *ssa.Extract:
+			if x.Index == 0 {
+				if cl, ok := x.Tuple.(*ssa.Call); ok {
+					return check(cl, d)
 				}
+			}
+		case *ssa.Call:
+			// a helper of the same package that itself hands out a fresh object on every return
+			h := x.Call.StaticCallee()
+			if h == nil || h.Pkg != fn.Pkg || len(h.Blocks) == 0 || h == fn {
 				return false
 			}
-			if !check(v, 0) {
-				bad = "a path returns an object that was not allocated by this call (" + describeValue(v) + "): callers write the failure strings in force into the object they get, so a shared one carries the first driver's strings into every later operation of every driver"
+			fresh := true
+			allInstrs(h, func(in ssa.Instruction) {
+				if hr, ok := in.(*ssa.Return); ok {
+					if len(hr.Results) == 0 || (!isNilConst(hr.Results[0]) && !check(hr.Results[0], d+1)) {
+						fresh = false
+					}
+				}
+			})
+			return fresh
+		}
+		return false
+	}
+	allInstrs(fn, func(in ssa.Instruction) {
+		ret, ok := in.(*ssa.Return)
+		if !ok || len(ret.Results) == 0 {
+			return
+		}
+		v := ret.Results[0]
+		if isNilConst(v) {
+			return
+		}
+		if !check(v, 0) {
+			bad = "a path returns an object that was not allocated by this call (" + describeValue(v) + "): " + consequence
+			pos = c.Pos(ret.Pos())
+		}
+	})
+	if bad != "" {
+		r.Bad(rule, construct, pos, bad)
+	} else {
+		r.OK(rule, construct, pos, "every return hands out an object allocated by this call")
+	}
+}
+
+// checkFreshConstructors: no exported New* function of the library that returns a pointer to a struct hands out a
+// package-level object (the address of a package variable, or a pointer stored in one), directly or through a helper of
+// its package.
+func checkFreshConstructors(c *Ctx, r *Report, rule string, pkgFilter func(string) bool, consequence string) {
+	var shared func(v ssa.Value, home *ssa.Function, d int) string
+	shared = func(v ssa.Value, home *ssa.Function, d int) string {
+		if d > 5 {
+			return ""
+		}
+		switch x := v.(type) {
+		case *ssa.Global:
+			return x.Name()
+		case *ssa.UnOp:
+			if x.Op == token.MUL {
+				if g, ok := x.X.(*ssa.Global); ok {
+					return g.Name()
+				}
+				return shared(x.X, home, d+1)
+			}
+		case *ssa.FieldAddr:
+			return shared(x.X, home, d+1)
+		case *ssa.IndexAddr:
+			return shared(x.X, home, d+1)
+		case *ssa.ChangeType:
+			return shared(x.X, home, d+1)
+		case *ssa.Phi:
+			for _, e := range x.Edges {
+				if g := shared(e, home, d+1); g != "" {
+					return g
+				}
+			}
+		case *ssa.Extract:
+			if x.Index == 0 {
+				if cl, ok := x.Tuple.(*ssa.Call); ok {
+					return shared(cl, home, d)
+				}
+			}
+		case *ssa.Call:
+			h := x.Call.StaticCallee()
+			if h == nil || h.Pkg != home.Pkg || len(h.Blocks) == 0 || h == home {
+				return ""
+			}
+			g := ""
+			allInstrs(h, func(in ssa.Instruction) {
+				if hr, ok := in.(*ssa.Return); ok && len(hr.Results) > 0 && g == "" {
+					g = shared(hr.Results[0], h, d+1)
+				}
+			})
+			return g
+		}
+		return ""
+	}
+	for _, fn := range c.LibFns {
+		if fn.Parent() != nil || fn.Signature.Recv() != nil || fn.Object() == nil || !fn.Object().Exported() || !strings.HasPrefix(fn.Name(), "New") {
+			continue
+		}
+		if fn.Pkg == nil || (pkgFilter != nil && !pkgFilter(fn.Pkg.Pkg.Path())) {
+			continue
+		}
+		res := fn.Signature.Results()
+		if res.Len() == 0 {
+			continue
+		}
+		p, ok := res.At(0).Type().(*types.Pointer)
+		if !ok {
+			continue
+		}
+		if _, ok := p.Elem().Underlying().(*types.Struct); !ok {
+			continue
+		}
+		pk := strings.TrimPrefix(fn.Pkg.Pkg.Path(), modPath+"/")
+		construct := pk + "." + fn.Name() + " hands out no package-level object"
+		bad, pos := "", c.Pos(fn.Pos())
+		allInstrs(fn, func(in ssa.Instruction) {
+			ret, ok := in.(*ssa.Return)
+			if !ok || len(ret.Results) == 0 || bad != "" {
+				return
+			}
+			if g := shared(ret.Results[0], fn, 0); g != "" {
+				bad = "the constructor returns the package-level object " + g + " instead of an object of its own: " + consequence
 				pos = c.Pos(ret.Pos())
 			}
 		})
 		if bad != "" {
 			r.Bad(rule, construct, pos, bad)
 		} else {
-			r.OK(rule, construct, pos, "every return hands out a new(OperationOptions) of this call")
+			r.OK(rule, construct, pos, "")
 		}
 	}
 }
